@@ -27,20 +27,23 @@ def validate(traces, module, workdir, constants=(), procs=16, timeout=900, spec=
         txt = re.sub(r'\s+', ' ', open(res['out'], errors='replace').read())      # PrintT wraps long tuples
         v = {}
         for m in _VERDICT.finditer(txt):
-            v[json.loads(m.group(2)) if m.group(2).startswith('"') else int(m.group(2))] = (m.group(3), int(m.group(4)))
+            names = m.group(3).split('|')          # every failing clause of the event, the first one first
+            v[json.loads(m.group(2)) if m.group(2).startswith('"') else int(m.group(2))] = (names[0], int(m.group(4)), names)
         return res, v, len(parts[i])
 
     t0 = time.time()
     with ThreadPoolExecutor(procs) as ex:
         results = list(ex.map(one, range(procs)))
-    verdicts = {}
+    verdicts, allc = {}, {}
     gen = dist = 0
     for res, v, n in results:
         if res['machinery_error'] or res['timed_out'] or res['violated'] or len(v) != n:
             raise tlc.TLCError('trace validation run failed (rc=%s, %d/%d verdicts, violated=%s): %s' % (
                 res['rc'], len(v), n, res['violated'], res['out']))
-        verdicts.update(v)
+        for k, x in v.items():
+            verdicts[k] = x[:2]
+            allc[k] = x[2]
         gen += res['generated']
         dist += res['distinct']
     return verdicts, dict(generated=gen, distinct=dist, wall_s=round(time.time() - t0, 2), runs=procs,
-                          cmd=results[0][0]['cmd'])
+                          cmd=results[0][0]['cmd'], all=allc)
